@@ -502,18 +502,14 @@ class VanillaSimulaQronExecutioner(Executor):
     @inlineCallbacks
     def _measure_epr_qubit(self, qubit_id, request, remote: bool):
         # Check the arguments depending on if this is the local or remote qubit
+        rotations = self._get_request_rotations(request=request, remote=remote)
+        assert all(rotation == 0 for rotation in rotations), "Measure directly with rotations not yet supported"
         if remote:
-            assert request.rotation_X_remote1 == 0, "Measure directly with rotations not yet supported"
-            assert request.rotation_Y_remote == 0, "Measure directly with rotations not yet supported"
-            assert request.rotation_X_remote2 == 0, "Measure directly with rotations not yet supported"
             random_basis = request.random_basis_remote
             probability_dist1 = request.probability_dist_remote1
             probability_dist2 = request.probability_dist_remote2
 
         else:
-            assert request.rotation_X_local1 == 0, "Measure directly with rotations not yet supported"
-            assert request.rotation_Y_local == 0, "Measure directly with rotations not yet supported"
-            assert request.rotation_X_local2 == 0, "Measure directly with rotations not yet supported"
             random_basis = request.random_basis_local
             probability_dist1 = request.probability_dist_local1
             probability_dist2 = request.probability_dist_local2
@@ -542,6 +538,20 @@ class VanillaSimulaQronExecutioner(Executor):
         outcome = yield self.cmd_measure(qubit_id=qubit_id, inplace=False)
         self.remove_qubit_id(qubit_id=qubit_id)
         return outcome, basis
+
+    @staticmethod
+    def _get_request_rotations(request, remote: bool):
+        """
+        The three pre-measurement rotation angles of a measure directly request for the local or remote qubit.
+        The fields of LinkLayerCreate are called rotation_X_local1, rotation_Y_local, rotation_X_local2 up to
+        netqasm 0.8 and rotation_local_1, rotation_local_2, rotation_local_3 in later versions.
+        """
+        side = "remote" if remote else "local"
+        if hasattr(request, f"rotation_{side}_1"):
+            fields = [f"rotation_{side}_1", f"rotation_{side}_2", f"rotation_{side}_3"]
+        else:
+            fields = [f"rotation_X_{side}1", f"rotation_Y_{side}", f"rotation_X_{side}2"]
+        return [getattr(request, field) for field in fields]
 
     # NOTE this method is copied from netsquid magic
     def _get_probability_weights(self, probability_dist_spec, num_choices):
